@@ -43,7 +43,18 @@ def _kf_listed(key):
 # iqx_error_cond finds it on the unfixed tree (VIOLATION, replayed) and holds once QXmppIq::parseElementFromChild skips the error child. If the defect is recorded instead of
 # repaired (known_findings.txt: `known: property=C02 key=iq_error_dup ...`), the instance becomes the demonstration of that finding.
 IQX_KW = dict(known_finding='iq_error_dup') if _kf_listed('iq_error_dup') else {}
-IQ_CASES = (IQI('iqx_', 'h_iq_extcount', {'error_cond': IQ_ERR_SHAPES['error_cond']}, timeout_s=500, mem_gb=6, **IQX_KW) + IQI('iqx_', 'h_iq_extcount', {'ext_error': IQ_ERR_SHAPES['ext_error']}, tiers=('manual',)) + IQI('iq_', 'h_iq', {k: v for k, v in IQ_SHAPES.items() if k != 'bind_dup'}) + IQI('iq_', 'h_iq', {'bind_dup': IQ_SHAPES['bind_dup']}, tiers=('thorough',)) + IQI('iq_', 'h_iq', IQ_ERR_SHAPES, tiers=('manual',))
+# vocabulary h_iqa of h_stanza.cpp (names QXmppStanza::parse itself compares against): tags iq,error,addresses,address,bind,zz,item-not-found,text; ns '',client,stanzas,address,bind
+A_IQ, A_ERROR, A_ADDRESSES, A_ADDRESS, A_BIND, A_ZZ, A_INF, A_TEXT = range(8); AN_NONE, AN_CLIENT, AN_STANZA, AN_ADDR, AN_BIND = range(5)
+IQA_SHAPES = dict(addresses=iqcase(1, (A_ADDRESSES, AN_ADDR, (A_ADDRESS, AN_NONE))), ext_addresses=iqcase(2, (A_ZZ, AN_CLIENT, (A_ADDRESS, AN_NONE)), (A_ADDRESSES, AN_NONE, (A_ADDRESS, AN_NONE))))
+# + bit 28/29: the <address/> grandchild of child 0/1 is concretely valid (non-empty type and jid of fixed length, arbitrary units): the list of extended addresses then has a concrete length
+IQA_VALID_SHAPES = dict(addresses_valid=IQA_SHAPES['addresses'] | (1 << 28), ext_addresses_valid=IQA_SHAPES['ext_addresses'] | (1 << 29))
+IQA_ERR_SHAPES = dict(addresses_error=iqcase(2, (A_ADDRESSES, AN_ADDR, (A_ADDRESS, AN_NONE)), (A_ERROR, AN_NONE, (A_INF, AN_STANZA))))
+TH = dict(tiers=('thorough',), timeout_s=500, mem_gb=6)
+IQ_CASES = (IQI('iqa_', 'h_iqa', {k: IQA_SHAPES[k] for k in ['addresses']}, timeout_s=500, mem_gb=6) + IQI('iqa_', 'h_iqa', {k: IQA_VALID_SHAPES[k] for k in ['addresses_valid']}, timeout_s=500, mem_gb=6)
+            + IQI('iqa_', 'h_iqa', {'ext_addresses': IQA_SHAPES['ext_addresses'], 'ext_addresses_valid': IQA_VALID_SHAPES['ext_addresses_valid']}, **TH)
+            + IQI('iqax_', 'h_iqa_extcount', IQA_SHAPES, **TH) + IQI('iqax_', 'h_iqa_extcount', IQA_VALID_SHAPES, **TH)
+            + IQI('iqax_', 'h_iqa_extcount', IQA_ERR_SHAPES, tiers=('manual',))     # <addresses/> next to <error/>: out of memory (5.5 GB)
+            + IQI('bindiqa_', 'h_bindiqa', dict(bind_addresses_valid=iqcase(2, (A_BIND, AN_BIND), (A_ADDRESSES, AN_NONE, (A_ADDRESS, AN_NONE))) | (1 << 29)), **TH) + IQI('iqx_', 'h_iq_extcount', {'error_cond': IQ_ERR_SHAPES['error_cond']}, timeout_s=500, mem_gb=6, **IQX_KW) + IQI('iqx_', 'h_iq_extcount', {'ext_error': IQ_ERR_SHAPES['ext_error']}, tiers=('manual',)) + IQI('iq_', 'h_iq', {k: v for k, v in IQ_SHAPES.items() if k != 'bind_dup'}) + IQI('iq_', 'h_iq', {'bind_dup': IQ_SHAPES['bind_dup']}, tiers=('thorough',)) + IQI('iq_', 'h_iq', IQ_ERR_SHAPES, tiers=('manual',))
             + IQI('bindiq_', 'h_bind_iq', dict(jid=iqcase(1, (T_BIND, N_BIND, (T_JID, N_NONE))))) + IQI('bindiq_', 'h_bind_iq', dict(bind_ext=iqcase(2, (T_BIND, N_BIND), (T_ZZ, N_CLIENT, (T_BIND, N_BIND)))), tiers=('thorough',))
             + IQI('pingiq_', 'h_ping_iq', dict(ping=iqcase(1, (T_PING, N_PING)))) + IQI('pingiq_', 'h_ping_iq', dict(ping_ext=iqcase(2, (T_PING, N_PING, (T_ZZ, N_NONE)), (T_BIND, N_BIND))), tiers=('thorough',)))
 SPEC = dict(
@@ -63,7 +74,7 @@ SPEC = dict(
             'every attribute of the vocabulary independently present or absent on EVERY element (names concrete, presence and value symbolic)',
             'every attribute value and every element text = one of: 0..3 arbitrary UTF-16 units (covers "", "0", "1", "-1", markup characters, non-ASCII), an ABSTRACT NUMBER of arbitrary sign and 64-bit magnitude (covers 0, 1, -1, 4294967296, 2^64-1 as numeric strings), or an enum-like string of the parser (true, false, cancel, result, ...)',
             'two passes: t -> P -> x -> toXml -> T1 -> P -> y -> toXml -> T2, assert P accepts T1 and T1 == T2 (element order significant); *_safe instances: first half only (P(t) safe, toXml(x) one complete well-formed element)',
-            'generic QXmppIq / QXmppBindIq / QXmppPingIq: shape (child count <= 2, one optional grandchild each, their tags/namespaces) concrete per instance (VP_CASE), attribute presence/values and text symbolic',
+            'generic QXmppIq / QXmppBindIq / QXmppPingIq: shape (child count <= 2, one optional grandchild each, their tags/namespaces) concrete per instance (VP_CASE), attribute presence/values and text symbolic; two vocabularies: payload names (bind, ping, ...) and the names QXmppStanza::parse itself looks at (error, addresses/address with type, jid, desc, delivered); *_valid shapes: the <address/> has non-empty type and jid of fixed length (arbitrary units), so the parsed list of extended addresses has a concrete length',
             'real-code loops: unwind 10, sibling walks of firstChildElement/nextSiblingElement bounded per instance (max children + 2); all bounds are checked by unwinding assertions'],
     assumptions=['Qt is environment: QDomElement/QXmlStreamWriter are the shared bounded tree model (serialize -> parse never goes through text: Qt tokenising/escaping trusted); numeric strings are abstract (toUInt... of non-numeric text returns an arbitrary (value, ok)); base64 is an abstract tagging, base64 decoding of untagged text gives arbitrary <= 3 bytes or "invalid"',
                  'harness-local DOM fork c02_dom.c: getters of a null element / absent attribute return an empty string that is not isNull(); the tree does no reference counting (model blocks are never recycled)',
